@@ -262,6 +262,69 @@ pub fn check_query(c: &QueryCase) -> CaseResult {
         }
     }
     ensure!(after == before, "distance-store-changed", "store contents changed by a distance query: ids {:?} -> {:?}", before.keys().collect::<Vec<_>>(), after.keys().collect::<Vec<_>>());
+    // Second query on the same store after tracks changed their status through the direct
+    // (caller-side) operations: what a query reports is a function of what is stored when it is
+    // asked, not of what an earlier query saw.
+    let mut requeried = false;
+    if c.drop_half == 0 && !c.stored.is_empty() {
+        let mut changed = 0usize;
+        for d in c.stored.iter().take(3) {
+            if !model.contains_key(&d.id) {
+                continue;
+            }
+            let upd = if d.val.rem_euclid(2) == 0 { Some(HU::Add(1)) } else { Some(HU::Add(3)) };
+            let r = store.add(d.id, c.class, Some(HO(d.val as i32 % 7)), Some(feat(d.val as i32 % 5)), upd.clone());
+            let (mr, _) = model.get_mut(&d.id).unwrap().add_observation(c.class, Some(HO(d.val as i32 % 7)), Some(feat(d.val as i32 % 5)), upd);
+            if r.is_ok() != mr.is_ok() {
+                return Ok(CaseOk::trivial().label("setup_add_disagrees"));
+            }
+            if mr.is_ok() {
+                changed += 1;
+            }
+        }
+        if changed > 0 {
+            let mut cand_models2: Vec<MTrack> = vec![];
+            let mut cand_tracks2: Vec<HTrack> = vec![];
+            if c.owned {
+                for id in &ids {
+                    if let Some(m) = model.get(id) {
+                        cand_models2.push(m.clone());
+                    }
+                }
+            } else {
+                for d in &c.foreign {
+                    let (t, m) = build_both(d, &ctl, &n);
+                    cand_tracks2.push(t);
+                    cand_models2.push(m);
+                }
+            }
+            let mut want2: Vec<Item> = vec![];
+            let mut want_errors2 = 0usize;
+            for cm in &cand_models2 {
+                for s in model.values() {
+                    if s.id == cm.id || (c.only_baked && s.status() != Ok("ready")) {
+                        continue;
+                    }
+                    match cm.distances(s, c.class) {
+                        Ok(v) => want2.extend(post_keep(v).into_iter().map(|(f, t, a, d)| (f, t, a, d.map(|x| x as i32)))),
+                        Err(true) => {}
+                        Err(false) => want_errors2 += 1,
+                    }
+                }
+            }
+            let (ok2, err2) = if c.owned { store.owned_track_distances(&ids, c.class, c.only_baked) } else { store.foreign_track_distances(cand_tracks2, c.class, c.only_baked) };
+            let got2: Vec<Item> = ok2.all().iter().map(|m| (m.from, m.to, m.attribute_metric, m.feature_distance.map(|x| x as i32))).collect();
+            let errs2 = err2.all();
+            let (got2, want2) = (norm(got2), norm(want2));
+            if got2 != want2 {
+                let missing: Vec<&Item> = want2.iter().filter(|x| !got2.contains(x)).take(4).collect();
+                let extra: Vec<&Item> = got2.iter().filter(|x| !want2.contains(x)).take(4).collect();
+                return Err(Fail::new("distance-results-second-query", format!("second query after {} stored tracks changed through TrackStore::add: {} results, expected {}; missing e.g. {:?}; unexpected e.g. {:?}", changed, got2.len(), want2.len(), missing, extra)));
+            }
+            ensure!(errs2.len() == want_errors2, "distance-errors-second-query", "second query: {} error items, expected {}", errs2.len(), want_errors2);
+            requeried = true;
+        }
+    }
     let owned_mutual = c.owned && {
         let mut yes = false;
         for a in &cand_models {
@@ -285,7 +348,100 @@ pub fn check_query(c: &QueryCase) -> CaseResult {
         .label_if(merged > 0, "stored_tracks_with_merge_history")
         .label_if(c.drop_half > 0, "one_stream_dropped_unread")
         .label_if(concurrent_owned, "owned_query_while_foreign_query_in_flight")
+        .label_if(requeried, "second_query_after_direct_changes")
         .label_if(want.is_empty(), "no_results"))
+}
+
+
+// ---------------------------------------------------------------------------------------------
+// a metric that relies on the library's default post-processing
+
+/// Pair metric with the trait's default `postprocess_distances`: attribute distance when both
+/// observations carry an attribute, feature distance when both carry a feature - a pair of an
+/// attribute-only and a feature-only observation yields a result with neither value, which is a
+/// result all the same (`Track::distances` returns it).
+#[derive(Clone, Default)]
+pub struct DM;
+
+impl similari::track::ObservationMetric<HA, HO> for DM {
+    fn metric(&self, mq: &similari::track::MetricQuery<'_, HA, HO>) -> similari::track::MetricOutput<i64> {
+        let a = match (mq.candidate_observation.attr(), mq.track_observation.attr()) {
+            (Some(x), Some(y)) => Some((x.0 as i64 - y.0 as i64).abs()),
+            _ => None,
+        };
+        let f = match (mq.candidate_observation.feature(), mq.track_observation.feature()) {
+            (Some(x), Some(y)) => Some((feat_val(x) - feat_val(y)).abs()),
+            _ => None,
+        };
+        Some((a, f))
+    }
+    fn optimize(&mut self, _class: u64, _history: &[u64], _attrs: &mut HA, _obs: &mut Vec<similari::track::Observation<HO>>, _prev_length: usize, _is_merge: bool) -> anyhow::Result<()> {
+        Ok(())
+    }
+}
+
+#[derive(Clone, Debug, Serialize, Deserialize)]
+pub struct DmCase {
+    pub shards: usize,
+    /// observations (attribute, feature) of the stored tracks 1.. and of the candidates 101..
+    pub stored: Vec<Vec<(Option<i8>, Option<i8>)>>,
+    pub cands: Vec<Vec<(Option<i8>, Option<i8>)>>,
+    pub owned: bool,
+    pub use_iter: bool,
+}
+
+pub fn dm_case() -> impl Strategy<Value = DmCase> {
+    let obs = || proptest::collection::vec(prop_oneof![(any::<i8>().prop_map(Some), Just(None)), (Just(None), any::<i8>().prop_map(Some)), (any::<i8>().prop_map(Some), any::<i8>().prop_map(Some)), (Just(None), Just(None))], 0..4);
+    (1usize..5, proptest::collection::vec(obs(), 0..6), proptest::collection::vec(obs(), 1..4), any::<bool>(), any::<bool>()).prop_map(|(shards, stored, cands, owned, use_iter)| DmCase { shards, stored, cands, owned, use_iter })
+}
+
+pub fn check_dm(c: &DmCase) -> CaseResult {
+    type T = similari::track::Track<HA, DM, HO, HN>;
+    let ctl = Ctl::new();
+    let n = HN::new();
+    let mut attrs = HA::new(ctl.clone());
+    attrs.val = 1; // Ready as soon as there is an observation
+    let build = |id: u64, obs: &Vec<(Option<i8>, Option<i8>)>| -> T {
+        let mut t = similari::track::Track::new(id, DM, attrs.clone(), n.clone());
+        for (a, f) in obs {
+            t.add_observation(0, a.map(|x| HO(x as i32)), f.map(|x| feat(x as i32)), None).unwrap();
+        }
+        t
+    };
+    let mut store: QuietDrop<TrackStore<HA, DM, HO, HN>> = QuietDrop::new(TrackStore::new(DM, attrs.clone(), n.clone(), c.shards));
+    let stored: Vec<T> = c.stored.iter().enumerate().map(|(i, o)| build(i as u64 + 1, o)).collect();
+    for t in &stored {
+        store.add_track(t.clone()).map_err(|e| Fail::new("harness", format!("{}", e)))?;
+    }
+    // candidates: foreign tracks, or (owned) the first stored tracks
+    let cands: Vec<T> = if c.owned { stored.iter().take(c.cands.len()).cloned().collect() } else { c.cands.iter().enumerate().map(|(i, o)| build(i as u64 + 101, o)).collect() };
+    // reference: the per-pair function, and the count the pair definition gives (every pair of
+    // observations of the class is one result, whatever values it carries)
+    let mut want: Vec<Item> = vec![];
+    let mut want_count = 0usize;
+    let mut valueless = 0usize;
+    for cand in &cands {
+        for s in &stored {
+            if s.get_track_id() == cand.get_track_id() {
+                continue;
+            }
+            if let Ok(v) = cand.distances(s, 0) {
+                valueless += v.iter().filter(|m| m.attribute_metric.is_none() && m.feature_distance.is_none()).count();
+                want.extend(v.iter().map(|m| (m.from, m.to, m.attribute_metric, m.feature_distance.map(|x| x as i32))));
+            }
+            let nobs = |t: &T| t.get_observations(0).map(|o| o.len()).unwrap_or(0);
+            want_count += nobs(cand) * nobs(s);
+        }
+    }
+    let ids: Vec<u64> = cands.iter().map(|t| t.get_track_id()).collect();
+    let (ok, err) = if c.owned { store.owned_track_distances(&ids, 0, false) } else { store.foreign_track_distances(cands.clone(), 0, false) };
+    let raw = if c.use_iter { ok.into_iter().collect::<Vec<_>>() } else { ok.all() };
+    let _ = err.all();
+    let got: Vec<Item> = raw.iter().map(|m| (m.from, m.to, m.attribute_metric, m.feature_distance.map(|x| x as i32))).collect();
+    ensure!(want.len() == want_count, "default-metric-pair-function", "Track::distances yields {} results for {} observation pairs", want.len(), want_count);
+    let (got, want) = (norm(got), norm(want));
+    ensure!(got == want, "distance-results-default-postprocessing", "a store query with a metric that keeps the default post-processing returns {} results, the per-pair definition gives {} ({} of them carry neither an attribute nor a feature distance)", got.len(), want.len(), valueless);
+    Ok(CaseOk::new(valueless > 0 && c.shards >= 2).label(if c.owned { "owned" } else { "foreign" }).label_if(valueless > 0, "results_without_values"))
 }
 
 /// Track descriptions biased towards producing distances: mostly one compatibility group,
@@ -423,12 +579,15 @@ pub fn run(env: &Env, rep: &Report) {
     });
     rep.note("all-interleavings", "for each sampled scenario with <= 6 Distances commands on >= 2 shards: every interleaving of the per-shard FIFO queues x every position of the caller's step".into());
     par_generated(rep, "query", query_case, env.tier.pick(100_000, 1_500_000), w, iso_check(&pool, rep));
+    par_generated(rep, "default-metric", dm_case, env.tier.pick(30_000, 500_000), w, check_dm);
+    rep.note("default-metric", "a second metric type that keeps the trait's default post-processing and yields results without values (attribute-only vs feature-only observations): store queries vs Track::distances per pair".into());
     rep.set_extra("child_timeouts", serde_json::json!(pool.timeouts.load(std::sync::atomic::Ordering::Relaxed)));
 }
 
 pub fn replay(sub: &str, case: Value) -> Option<CaseResult> {
     match sub {
         "query" | "all-interleavings" => Some(replay_case(case, check_query, sub)),
+        "default-metric" => Some(replay_case(case, check_dm, sub)),
         _ => None,
     }
 }
